@@ -116,7 +116,8 @@ type node struct {
 	nBoot    int
 	inits    int
 	nExec    int
-	pending  []string // results of the two concurrent AddGroup calls, in the order they are reported as cadd lines
+	retained []*types.Group // objects the chain handed out in the previous raw-store check
+	pending  []string       // results of the two concurrent AddGroup calls, in the order they are reported as cadd lines
 	nConc    int
 	nRestart int
 }
@@ -784,6 +785,130 @@ func (n *node) oracle() (string, string) {
 	return "", ""
 }
 
+// rawOracle compares EVERY query path with what the raw store holds (read through the LevelDB
+// iterator, parsed here, not by the chain): Count/LastGroup vs gcount/gcurrent, GetGroupByHeight
+// for every slot up to count+3 (twice, ascending then descending), GetGroupById for every stored
+// group, the iterator walk and the sync reader. Nothing in it comes from the code under test or
+// from the model, and it must hold in every live state, crash histories included: a cache or a
+// stale in-memory mirror in front of the store shows here. Objects the chain returned to the
+// previous call are scribbled over first (a shared cached object would then read back mutated).
+func (n *node) rawOracle() (string, string) {
+	for _, g := range n.retained {
+		if g != nil {
+			if len(g.Id) > 0 {
+				g.Id[0] ^= 0xff
+			}
+			g.GroupHeight = 424242
+			if g.Header != nil {
+				g.Header.PreGroup = []byte("scribbled")
+			}
+		}
+	}
+	n.retained = n.retained[:0]
+	gc := core.GetGroupChain()
+	kv := core.VerifGroupChainDump()
+	m := map[string][]byte{}
+	for _, e := range kv {
+		m[string(e[0])] = e[1]
+	}
+	parse := func(v []byte) *types.Group {
+		if len(v) == 0 {
+			return nil
+		}
+		var g *types.Group
+		if json.Unmarshal(v, &g) != nil {
+			return nil
+		}
+		return g
+	}
+	var rawCount uint64
+	if v, ok := m["gcount"]; ok && len(v) >= 8 {
+		rawCount = new(big.Int).SetBytes(v[:8]).Uint64()
+	}
+	if c := gc.Count(); c != rawCount {
+		return "mem-ne-store:count", fmt.Sprintf("Count()=%d but the store's gcount=%d", c, rawCount)
+	}
+	rawCur := m["gcurrent"]
+	if l := gc.LastGroup(); l == nil || string(l.Id) != string(rawCur) || gstr(l) != gstr(parse(m[string(rawCur)])) {
+		return "mem-ne-store:last", fmt.Sprintf("LastGroup()=%s but the store's gcurrent=%s -> %s", gstr(l), hx.Hex(rawCur), gstr(parse(m[string(rawCur)])))
+	}
+	if rawCount < 1<<20 {
+		top := rawCount + 3
+		slot := func(i uint64) *types.Group {
+			v, ok := m[string(core.VerifGroupChainHeightKey(i))]
+			if !ok {
+				return nil
+			}
+			return parse(m[string(v)])
+		}
+		for pass := 0; pass < 2; pass++ {
+			for k := uint64(0); k <= top; k++ {
+				i := k
+				if pass == 1 {
+					i = top - k
+				}
+				got := gc.GetGroupByHeight(i)
+				n.retained = append(n.retained, got)
+				if gstr(got) != gstr(slot(i)) {
+					return "query-ne-store:byheight", fmt.Sprintf("GetGroupByHeight(%d)=%s but the store's slot %d leads to %s", i, gstr(got), i, gstr(slot(i)))
+				}
+			}
+		}
+		var want []string
+		for i := uint64(0); i <= top; i++ {
+			v, ok := m[string(core.VerifGroupChainHeightKey(i))]
+			if !ok {
+				break
+			}
+			want = append(want, gstr(parse(m[string(v)])))
+		}
+		var got []string
+		for _, g := range core.VerifGroupChainSyncByHeight(0, int(top)+1) {
+			got = append(got, gstr(g))
+		}
+		if strings.Join(got, " ") != strings.Join(want, " ") {
+			return "query-ne-store:sync", fmt.Sprintf("GetSyncGroupsByHeight(0,%d)=[%s] but the store's slots give [%s]", top+1, strings.Join(got, " "), strings.Join(want, " "))
+		}
+	}
+	for k, v := range m {
+		if g := parse(v); g != nil && len(v) > 0 && v[0] == '{' {
+			got := gc.GetGroupById([]byte(k))
+			n.retained = append(n.retained, got)
+			if gstr(got) != gstr(g) {
+				return "query-ne-store:byid", fmt.Sprintf("GetGroupById(%s)=%s but the store holds %s", hx.Hex([]byte(k)), gstr(got), gstr(g))
+			}
+		}
+	}
+	for _, id := range n.everIds {
+		if _, ok := m[string(id)]; !ok {
+			if got := gc.GetGroupById(id); got != nil {
+				return "query-ne-store:byid", fmt.Sprintf("GetGroupById(%s)=%s but the store has no such key", hx.Hex(id), gstr(got))
+			}
+		}
+	}
+	// iterator walk vs the raw predecessor walk
+	var rawWalk []string
+	cur := rawCur
+	for steps := 0; steps <= len(kv); steps++ {
+		g := parse(m[string(cur)])
+		if g == nil || g.Header == nil {
+			break
+		}
+		rawWalk = append(rawWalk, hx.Hex(g.Id))
+		cur = g.Header.PreGroup
+	}
+	if gs, ok := n.iterIds(); ok && len(rawWalk) <= len(kv) {
+		var w []string
+		for _, g := range gs {
+			w = append(w, hx.Hex(g.Id))
+		}
+		if strings.Join(w, " ") != strings.Join(rawWalk, " ") {
+			return "query-ne-store:iter", fmt.Sprintf("Iterator walk [%s] but the store's predecessor links give [%s]", strings.Join(w, " "), strings.Join(rawWalk, " "))
+		}
+	}
+	return "", ""
+}
+
 func first(gs []*types.Group) *types.Group {
 	if len(gs) == 0 {
 		return nil
@@ -1231,6 +1356,25 @@ func main() {
 	var viols []viol
 	seenKey := map[string]bool{}
 	evals, mutators := 0, 0
+	// report records a violation class once and makes it visible at once: printed (search mode) or
+	// appended to <ops>.viols (correspondence mode) and synced, so that a later crash, hang or
+	// time-out of this process cannot lose it.
+	var violFile *os.File
+	report := func(key, desc string) {
+		if seenKey[key] {
+			return
+		}
+		seenKey[key] = true
+		v := viol{Key: key, Desc: desc, History: append([]string{}, n.hist...)}
+		viols = append(viols, v)
+		b, _ := json.Marshal(v)
+		if mode == "search" {
+			fmt.Println("VIOL " + string(b))
+		} else if violFile != nil {
+			violFile.WriteString(string(b) + "\n")
+			violFile.Sync()
+		}
+	}
 	crashed := false  // some op of the current history was actually cut by a crash
 	inDomain := false // oracle on: the generator running now produces well-formed histories only
 	broken := false   // the current history already violated the property: later symptoms derive from it
@@ -1248,10 +1392,6 @@ func main() {
 				op, _ := curOp.Load().(string)
 				if mode == "search" {
 					v := viol{Key: "hang", Desc: "operation does not terminate within 20 s: " + op, History: append([]string{}, n.hist...)}
-					for _, pv := range viols {
-						pb, _ := json.Marshal(pv)
-						fmt.Println("VIOL " + string(pb))
-					}
 					b, _ := json.Marshal(v)
 					fmt.Println("VIOL " + string(b))
 					fmt.Printf("SEARCH {\"evaluations\":%d,\"mutators\":%d,\"boots\":%d,\"restarts\":%d,\"exhaustive_sequences\":0}\n", evals, mutators, n.nBoot, n.nRestart)
@@ -1280,10 +1420,9 @@ func main() {
 		if f[0] == "boot" && n.alive && !seenKey["height-key-gcurrent"] {
 			// the height whose 8-byte key is the ASCII string "gcurrent" (0x6763757272656e74)
 			if h := core.GetGroupChain().GetGroupByHeight(0x6763757272656e74); h != nil {
-				seenKey["height-key-gcurrent"] = true
-				viols = append(viols, viol{Key: "height-key-gcurrent",
-					Desc:    fmt.Sprintf("Count()=%d but GetGroupByHeight(7449927343006903924)=%s (that height's key is \"gcurrent\")", core.GetGroupChain().Count(), gstr(h)),
-					History: []string{op, "byheight 7449927343006903924"}})
+				n.hist = append(n.hist, "byheight 7449927343006903924")
+				report("height-key-gcurrent", fmt.Sprintf("Count()=%d but GetGroupByHeight(7449927343006903924)=%s (that height's key is \"gcurrent\")", core.GetGroupChain().Count(), gstr(h)))
+				n.hist = n.hist[:len(n.hist)-1]
 			}
 		}
 		switch f[0] {
@@ -1298,6 +1437,16 @@ func main() {
 		mutators++
 		if f[0] == "crash" && strings.HasPrefix(res, "crashed") {
 			crashed = true
+		}
+		if res == "bad-op" {
+			// a well-formed op of an in-domain generator that the harness itself refuses: broken tie, not agreement
+			report("bad-op-in-domain", "generator produced an op the harness cannot run: "+op)
+		}
+		if n.alive && !strings.HasPrefix(res, "PANIC") {
+			// holds in EVERY live state (also after crashes, also in histories already marked broken)
+			if k, d := n.rawOracle(); k != "" {
+				report(k, d)
+			}
 		}
 		if broken {
 			return res
@@ -1315,29 +1464,25 @@ func main() {
 			return res
 		}
 		broken = true
+		// class = cut operation + number of writes that got through + SYMPTOM, so that a different
+		// failure at an already recorded crash point is a new key
 		if f[0] == "bootcrash" && strings.HasPrefix(res, "crashed") {
-			// class = after how many writes of a genesis save the (last) cut fell
-			desc = key + ": " + desc
-			key = fmt.Sprintf("crash:firstboot:k%d", (n.writes-w0)%4)
+			k := (n.writes - w0) % 4
 			if strings.HasPrefix(res, "crashed crashed") {
 				kk, _ := strconv.Atoi(f[2])
-				key = fmt.Sprintf("crash:firstboot:k%d", kk%4)
+				k = kk % 4
 			}
+			key = fmt.Sprintf("crash:firstboot:k%d:%s", k, key)
 		} else if f[0] == "crash" && strings.HasPrefix(res, "crashed") && len(f) >= 3 {
-			// class = which operation was cut and after how many of its four writes
 			what := "remove"
 			if f[2] == "add" {
 				what = "save"
 			}
-			desc = key + ": " + desc
-			key = fmt.Sprintf("crash:%s:k%d", what, (n.writes-w0)%4)
+			key = fmt.Sprintf("crash:%s:k%d:%s", what, (n.writes-w0)%4, key)
 		} else if crashed {
 			key = "crash:latent:" + key
 		}
-		if !seenKey[key] {
-			viols = append(viols, viol{Key: key, Desc: desc, History: append([]string{}, n.hist...)})
-		}
-		seenKey[key] = true
+		report(key, desc)
 		return res
 	}
 	g := &gen{r: r, emit: emit, pool: idPool, n: n}
@@ -1348,6 +1493,7 @@ func main() {
 		if err != nil {
 			panic(err)
 		}
+		violFile, _ = os.Create(a["ops"] + ".viols")
 		defer out.Close()
 	}
 
@@ -1397,10 +1543,6 @@ func main() {
 	}
 
 	if mode == "search" {
-		for _, v := range viols {
-			b, _ := json.Marshal(v)
-			fmt.Println("VIOL " + string(b))
-		}
 		fmt.Printf("SEARCH {\"evaluations\":%d,\"mutators\":%d,\"boots\":%d,\"restarts\":%d,\"exhaustive_sequences\":%d}\n", evals, mutators, n.nBoot, n.nRestart, nEx)
 		return
 	}
